@@ -94,9 +94,11 @@ class ValueFromParentChain(InferredValue):
     # Use current key to lookup from the parent.
     key = self.inference_key
     if isinstance(key, int):
+      # An ancestor list that is too short does not define the index: keep
+      # walking up instead of failing the whole inference with `IndexError`.
       return (
           parent[key]
-          if isinstance(parent, (list, tuple))
+          if isinstance(parent, (list, tuple)) and key < len(parent)
           else pg_typing.MISSING_VALUE
       )
     return getattr(parent, key, pg_typing.MISSING_VALUE)
